@@ -191,6 +191,23 @@ def generate(rng, tier, boost):
         cases.append((1303, [pk, h, sig + b'\x00']))
         cases.append((1303, [pk, h, sig[:-1]]))
         cases.append((1303, [b'\x02' + b32(x + 1), h, sig]))
+    # R = u1*G + u2*Q is the point at infinity when e + r*d = 0 (mod n): never a valid signature
+    for _ in range(40 if big else 12):
+        d = rng.randrange(1, N)
+        Q = ec.mul(d, ec.G)
+        h = rbytes(rng, 32) if rng.random() < 0.8 else b'\x00' * 31 + b'\x01'
+        e = int.from_bytes(h, 'big')
+        r = (-e * ec.inv(d, N)) % N
+        if r == 0:
+            continue
+        for s_ in (1, 2, rng.randrange(1, N // 2)):
+            cases.append((1303, [ec.enc_pub(Q, rng.random() < 0.5), h, ec.der(r, s_)]))
+    # undecodable / off-curve keys with the all-zero digest and with ordinary digests, any signature
+    for badk in (b'\x02' + b32(5), b'\x03' + b32(5), b'\x02' + b32(P), b'\x02' + b32(P + 1), b'\x02' + b'\xff' * 32,
+                 b'\x06' + b32(ec.G[0]) + b32(ec.G[1]), b'\x07' + b32(ec.G[0]) + b32(ec.G[1]), b'\x04' + b32(1) + b32(1), b'\x00', b''):
+        for h in (b'\x00' * 32, b'\x00' * 31 + b'\x01', rbytes(rng, 32)):
+            for sg in (ec.der(1, 1), ec.der(rng.randrange(1, N), rng.randrange(1, N // 2)), b'\x30', b'\x30\x00', b'\x30\x06\x02\x01\x01\x02\x01'):
+                cases.append((1303, [badk, h, sg]))
     # signatures with tiny / short r and s that DO verify: the public key is recovered from the
     # signature (Q = r^-1 (s R - e G)), so every DER length from 8 bytes up occurs among valid ones
     def lift_x(x):
